@@ -191,6 +191,13 @@ impl SwiftField for Field53D {
         // Party identifier can be on its own line (with or without leading /)
         // If first line starts with '/' and is short, it's a party identifier
         if let Some(first_line) = lines.first() {
+            // A line starting with / is the party identifier, never a name line
+            if first_line.starts_with('/') && lines.len() == 1 {
+                return Err(ParseError::InvalidFormat {
+                    message: "Field 53D must have name and address after the party identifier"
+                        .to_string(),
+                });
+            }
             // If it starts with '/' or looks like an account identifier (short alphanumeric)
             let looks_like_party_id = first_line.starts_with('/')
                 || (first_line.len() <= 34
